@@ -357,4 +357,12 @@ def handle (j : Json) : Json :=
     | _, _, _ => err "bad init args"
   | _ => err "unknown op"
 
-def main : IO Unit := run handle
+/-- replies are sent as `{"z": "<reply, compressed JSON>"}`: the harness keeps the string and parses it when
+it compares (the parsed replies of a thorough run would need several GB) -/
+def handleZ (j : Json) : Json :=
+  let r := handle j
+  match r.getObjVal? "err" with
+  | .ok _ => r
+  | .error _ => Json.mkObj [("z", Json.str r.compress)]
+
+def main : IO Unit := run handleZ
